@@ -14,8 +14,9 @@ import (
 )
 
 type Peer struct {
-	ProxyFd int // the end registered in the event loop
-	PeerFd  int // the end the harness holds
+	EOF     bool // the proxy has closed its end
+	ProxyFd int  // the end registered in the event loop
+	PeerFd  int  // the end the harness holds
 	Addr    string
 	Slave   bool
 	Got     []byte // everything the proxy has written to this connection so far
@@ -44,6 +45,7 @@ type S struct {
 
 func New(cfg Config) (*S, error) {
 	s := &S{Cfg: cfg, nextPort: 40000}
+	server.VerifResetAuthCmd()
 	h := server.NewListenServer(
 		server.WithRedisPassword(cfg.Password),
 		server.WithServerRetryTimeout(cfg.RetryMs),
@@ -167,9 +169,10 @@ func (s *S) Drain(p *Peer) (eof bool) {
 			continue
 		}
 		if err == unix.EAGAIN || err == unix.EINTR {
-			return false
+			return p.EOF
 		}
-		return true // n == 0 (EOF) or a hard error
+		p.EOF = true // n == 0 (EOF) or a hard error
+		return true
 	}
 }
 
